@@ -1,4 +1,5 @@
 """C09 ZBDD set-family operations: wiring"""
+import ecof
 import eeval
 import eshort
 import ecache
@@ -55,4 +56,10 @@ def run(ctx):
                 "yield their value), plus the initial call and the multi-threaded delegation.")
     n = eeval.run(ctx, F, only=("zbdd",))
     ctx.floor("E-EVAL", "interpreted eval situations", n, 12)
+    ctx.explain("E-TABLE.cof: DiagramRules::cofactors (driven through its iterator's own next) and DiagramRules::cofactor (override "
+                "or trait default) are interpreted on a node whose children carry every tag combination, for every incoming "
+                "tag: the i-th result is the i-th child with the incoming tag applied (the builtin the step rules assume); "
+                "cofactors_node / cofactors_edge hand out cofactor 0, 1[, 2] of the edge's own tag and node, None for terminals.")
+    n = ecof.run(ctx, F, only=("zbdd",))
+    ctx.floor("E-TABLE.cof", "interpreted cofactor situations", n, 3)
     ctx.not_decided = "make_node, the tautology cache itself, consistency after add_vars beyond the cache events"
